@@ -14,6 +14,7 @@ func outProp(id string) *common.Prop {
 		Gen: func(r *simrt.Rand, tier string, idx int) interface{} { return genOutCase(r, tier, id) },
 		Run: func(t *testing.T, c interface{}, trace bool) *common.Outcome { return runOut(t, c, trace, id) },
 		Shrink: shrinkOut,
+		Sweep:  func(tier string) []interface{} { return sweepOut(id, tier) },
 	}
 }
 
